@@ -25,6 +25,7 @@ BUDGET = {"quick": 45, "thorough": 600}
 CHUNK = 4000
 GROUP = 12
 RULE = (
+    'Groups with number%25==12: a nested plan object handed to the steps of two top-level plans in turn (plain / abort at a seeded inner event delivery of the second run / all evaluations failing). '
     "runs come in groups of 12 sharing one scenario (plan shape single / evaluator-step / multi-step / nested; scripted "
     "optimizers with 1-4 requests, NaN failures and max_functions mixed in). Member 0 is the fault-free baseline; member j "
     "raises the abort at abort point (j-1)*A/11 of the A = (event deliveries of optimizer steps) + (evaluator calls) abort "
